@@ -55,7 +55,7 @@ def concrete_spline_check(xs, ys, out, extra_t=None):
     dxmin = min(Fraction(xs[i + 1]) - Fraction(xs[i]) for i in range(n - 1))
     cond = max(Fraction(1), max(abs(Fraction(x)) for x in xs) / dxmin)
     slopes = [(Fraction(ys[i + 1]) - Fraction(ys[i])) / (Fraction(xs[i + 1]) - Fraction(xs[i])) for i in range(n - 1)]
-    smax = max([abs(s) for s in slopes] + [Fraction(1)])
+    smax = max([abs(s) for s in slopes] + [Fraction(1, 10 ** 300)])
     for i, (end, c) in enumerate(segs):
         if end != xs[i + 1]:
             msgs.append("segment %d: end %r is not knot abscissa %r" % (i, end, xs[i + 1]))
